@@ -261,10 +261,19 @@ def step (d : DState) (l : Line) : DState × List Verdict :=
     let noop : List Verdict :=
       match sn?, res with
       | some sn, "reject" =>
-        noopVerdicts sn (!byAcct && k ≥ 0) ++
-        (if k == -1 && (sn.charged != 0 || sn.gained != 0) then [.monitor "reject_noop/balance_refused" s!"charged={sn.charged},gained={sn.gained}"] else []) ++
-        (if byAcct && sn.charged > budget then [.monitor "reject_noop/overcharge" s!"charged={sn.charged},budget={budget}"] else []) ++
-        (if byAcct && sn.gained != 0 then [.monitor "reject_noop/balance_gained" s!"{sn.gained}"] else [])
+        if byAcct then
+          noopVerdicts sn false ++
+          (if k == -1 && (sn.charged != 0 || sn.gained != 0) then [.monitor "reject_noop/balance_refused" s!"charged={sn.charged},gained={sn.gained}"] else []) ++
+          (if sn.charged > budget then [.monitor "reject_noop/overcharge" s!"charged={sn.charged},budget={budget}"] else []) ++
+          (if sn.gained != 0 then [.monitor "reject_noop/balance_gained" s!"{sn.gained}"] else [])
+        else if payS == "c_ok" && sn.rv1 == sn.rv0 + 1 then
+          -- the pay-by-contract revision itself was accepted (a separate, valid step that moves `budget`
+          -- from the contract into the account); the program was rejected afterwards
+          noopVerdicts sn true ++
+          (if sn.charged != 0 || sn.gained > budget then [.monitor "reject_noop/balance_gained" s!"charged={sn.charged},gained={sn.gained},paid={budget}"] else [])
+        else
+          noopVerdicts sn false ++
+          (if sn.charged != 0 || sn.gained != 0 then [.monitor "reject_noop/balance_refused" s!"charged={sn.charged},gained={sn.gained}"] else [])
       | _, _ => []
     if (lookup l.args "mut").isSome && lookup l.args "mut" != some "[]" then
       -- byte-level mutation of a valid request: decoding is core's, no prediction; monitors only
